@@ -5,8 +5,8 @@
    defined by structural recursion on the remaining depth and on the text, with
    no fuel: they terminate on every template and every environment, cyclic or
    not; the correspondence check ties that to the C code. *)
-From Robsd Require Import Interp.InterpSpec Interp.InterpProofs.
-From RobsdGen Require Import Gen_Interp.
+From Robsd Require Import Interp.InterpSpec Interp.InterpProofs Interp.InterpMore Interp.InterpTie.
+From RobsdGen Require Import Gen_Interp Gen_InterpSrc.
 Local Open Scope N_scope.
 
 (* the model computes exactly the substitution relation *)
@@ -100,6 +100,114 @@ Theorem C09_fail_closed : forall limit env content,
    (fst (interp_cmd limit env content) = 1 /\ snd (interp_cmd limit env content) = [])).
 Proof. exact fail_closed. Qed.
 Print Assumptions C09_fail_closed.
+
+(* ---- the depth index only limits ------------------------------------------------------- *)
+
+(* [SubstInf] is the substitution relation without any depth index: "the"
+   recursively interpolated value.  The indexed relation is monotone, their
+   union is SubstInf, SubstInf is functional; and a template that HAS an
+   interpolation o has a threshold d0: with at least d0 usable levels the model
+   returns o, with fewer it fails, and then with "recursion too deep" and no
+   other error.  These - and only these - are rejected only because of the limit. *)
+Theorem C09_depth_only_limits : forall env s o,
+  (forall d, Subst env d s o -> Subst env (S d) s o) /\
+  (SubstInf env s o <-> exists d, Subst env d s o) /\
+  (forall o', SubstInf env s o -> SubstInf env s o' -> o = o') /\
+  (SubstInf env s o ->
+     exists d0, (1 <= d0)%nat /\
+       forall d, ((d0 <= d)%nat -> interp d false env s = IOk o) /\
+                 ((d < d0)%nat -> interp d false env s = IErr EDeep)).
+Proof.
+  exact (fun env s o => conj (fun d => Subst_mono env d s o) (conj (SubstInf_iff env s o)
+           (conj (fun o' => SubstInf_functional env s o o') (limit_only_limits env s o)))).
+Qed.
+Print Assumptions C09_depth_only_limits.
+
+(* a template without an interpolation (malformed or unknown reference on the
+   way, a cycle) fails at every depth: the limit is never what rejects it *)
+Theorem C09_no_interpolation_fails_everywhere : forall env s,
+  (forall o, ~ SubstInf env s o) -> forall d, exists e, interp d false env s = IErr e.
+Proof. exact no_interpolation_fails_everywhere. Qed.
+Print Assumptions C09_no_interpolation_fails_everywhere.
+
+(* with the limit found in the source (5, i.e. 4 usable levels) *)
+Theorem C09_source_limit_only_limits : forall env s o,
+  nonul s -> SubstInf env s o ->
+  exists d0, (1 <= d0)%nat /\
+    ((d0 <= pred depth_limit)%nat -> interp_str depth_limit false env s = IOk o) /\
+    ((pred depth_limit < d0)%nat -> interp_str depth_limit false env s = IErr EDeep).
+Proof. exact source_limit_only_limits. Qed.
+Print Assumptions C09_source_limit_only_limits.
+
+(* ---- no NUL in the output: printf("%s") prints all of it --------------------------------- *)
+
+Theorem C09_output_has_no_nul : forall limit env content,
+  (forall out, interp_file limit env content = inl out ->
+     interp_cmd limit env content = (0, out) /\ ~ In 0 out) /\
+  (forall x, interp_file limit env content = inr x -> interp_cmd limit env content = (1, [])) /\
+  (forall ig s o, interp_str limit ig env s = IOk o -> nonul o).
+Proof.
+  exact (fun limit env content => conj (proj1 (interp_cmd_exact limit env content))
+           (conj (proj2 (interp_cmd_exact limit env content))
+                 (fun ig s o => interp_str_nonul limit ig env s o))).
+Qed.
+Print Assumptions C09_output_has_no_nul.
+
+(* ---- INTERPOLATE_IGNORE_LOOKUP_ERRORS ------------------------------------------------------ *)
+
+(* the mode used while a configuration is parsed.  [SubstIg] = [Subst] plus one
+   rule: a well-formed reference to an unknown variable is copied verbatim and
+   scanning goes on behind it.  The model in that mode computes exactly SubstIg;
+   it agrees with the plain mode wherever that succeeds; malformed references
+   are errors in this mode too. *)
+Theorem C09_ignore_mode : forall env d,
+  (forall s out, interp d true env s = IOk out <-> SubstIg env d s out) /\
+  (forall s o, interp d false env s = IOk o -> interp d true env s = IOk o) /\
+  ((forall n, env n <> None) -> forall s o, SubstIg env d s o -> Subst env d s o) /\
+  (forall a n b, ~ In DOLLAR a -> n <> [] -> ~ In RBRACE n -> env n = None ->
+     interp (S d) true env (a ++ ref n ++ b) =
+       match interp (S d) true env b with
+       | IErr e => IErr e
+       | IOk ob => IOk (a ++ ref n ++ ob)
+       end) /\
+  (forall a t, ~ In DOLLAR a ->
+     (match t with c :: _ => c <> LBRACE | [] => True end ->
+        interp (S d) true env (a ++ DOLLAR :: t) = IErr EBrace) /\
+     (~ In RBRACE t -> interp (S d) true env (a ++ DOLLAR :: LBRACE :: t) = IErr EClose) /\
+     (interp (S d) true env (a ++ DOLLAR :: LBRACE :: RBRACE :: t) = IErr EEmpty)).
+Proof.
+  exact (fun env d => conj (fun s out => interp_ig_iff env d s out)
+           (conj (ignore_agrees_on_success env d)
+           (conj (fun Ht s o => SubstIg_total_env env d s o Ht)
+           (conj (unknown_law_ig env d) (malformed_laws_ig env d))))).
+Qed.
+Print Assumptions C09_ignore_mode.
+
+(* ---- the model against the source text (Gen_InterpSrc.v) ------------------------------------ *)
+
+(* '$', '{', '}' are the characters interpolate_inner tests, the limit is the one
+   constant compared with the pre-incremented counter, the counter is touched at
+   exactly two places; and the character laws hold with the SOURCE's characters,
+   in both modes *)
+Theorem C09_source_characters : forall env d ig,
+  (DOLLAR = src_dollar /\ LBRACE = src_lbrace /\ RBRACE = src_rbrace) /\
+  (src_depth_limit = depth_limit /\ src_depth_sites = 2%nat) /\
+  (forall s, ~ In src_dollar s -> interp (S d) ig env s = IOk s) /\
+  (forall a c t, ~ In src_dollar a -> c <> src_lbrace ->
+     interp (S d) ig env (a ++ src_dollar :: c :: t) = IErr EBrace) /\
+  (forall a, ~ In src_dollar a -> interp (S d) ig env (a ++ [src_dollar]) = IErr EBrace) /\
+  (forall a t, ~ In src_dollar a -> ~ In src_rbrace t ->
+     interp (S d) ig env (a ++ src_dollar :: src_lbrace :: t) = IErr EClose) /\
+  (forall a t, ~ In src_dollar a ->
+     interp (S d) ig env (a ++ src_dollar :: src_lbrace :: src_rbrace :: t) = IErr EEmpty).
+Proof. exact (fun env d ig => conj tie_chars (conj tie_depth (source_char_laws env d ig))). Qed.
+Print Assumptions C09_source_characters.
+
+(* the oracle applied to the implementation is exact for the model *)
+Theorem C09_oracle_accepts_model : forall limit env content e o,
+  spec_ok_cmd limit env content e o = true <-> interp_cmd limit (alookup env) content = (e, o).
+Proof. exact oracle_cmd_exact. Qed.
+Print Assumptions C09_oracle_accepts_model.
 
 From Coq Require Import String.
 Local Open Scope string_scope.
